@@ -8,6 +8,7 @@ import VtProofs.TarDir
 import VtProofs.TarRead
 import VtProofs.PMTilesWrite
 import VtProofs.Capstone
+import VtProofs.Getters
 /-!
 # C01 — container round trip is lossless for every tile set and every format
 
@@ -196,6 +197,22 @@ theorem directory_roundtrip (K : Inflate) (s : TarDir.WSource) (ok : VtProofs.Ta
       (∀ t ∈ s.levels.flatMap s.stream, TarDir.getTile r t.1.1 t.1.2.1 t.1.2.2 = .ok (some t.2)) ∧
       (∀ x y z, (∀ t ∈ s.levels.flatMap s.stream, t.1 ≠ (x, y, z)) → TarDir.getTile r x y z = .ok none) :=
   VtProofs.TarRead.dir_roundtrip K s ok
+
+/-! ## `getters.rs`: the glue every CLI path goes through -/
+
+/-- local file names `<stem>.versatiles|pmtiles|mbtiles|tar|vpl` (no `?`, not a URL) reach the matching reader -/
+theorem getters_reader_table (stem : List Char) (hq : '?' ∉ stem) (hurl : ∀ e : List Char, Getters.isUrl (stem ++ e) = false) :
+    Getters.getReader (stem ++ ".versatiles".toList) .file = .versatiles ∧
+    Getters.getReader (stem ++ ".pmtiles".toList) .file = .pmtiles ∧
+    Getters.getReader (stem ++ ".mbtiles".toList) .file = .mbtiles ∧
+    Getters.getReader (stem ++ ".tar".toList) .file = .tar ∧
+    Getters.getReader (stem ++ ".vpl".toList) .file = .pipeline :=
+  VtProofs.Getters.reader_table stem hq hurl
+
+/-- a missing path is an error, an existing directory is read / written as a directory whatever its name -/
+theorem getters_missing_and_dir (name : List Char) (hu : Getters.isUrl name = false) :
+    Getters.getReader name .nothing = .err ∧ Getters.getReader name .dir = .directory ∧ Getters.writeTo name .dir = .directory :=
+  ⟨(VtProofs.Getters.reader_missing_and_dir name hu).1, (VtProofs.Getters.reader_missing_and_dir name hu).2, rfl⟩
 
 /-! ## capstone: C01 ∘ C02 ∘ C03 ∘ C15 -/
 
